@@ -24,7 +24,8 @@ def gen_body(rng, depth, parts):
         elif k == 'blank':
             lines.append('\n')
         elif k == 'value':
-            lines.append('{{' + rng.choice(['one', 'ml', 'ml3', 'e', 'nl', 'uni', 'eur', 'mlu', 'jp']) + '}}\n')
+            lines.append('{{' + rng.choice(['one', 'ml', 'ml3', 'e', 'nl', 'uni', 'eur', 'mlu', 'jp', 'lookup this "one"', 'len l3', 'lookup this "ml"',
+                                            'eq t true', 'lookup l3 1']) + '}}' + rng.choice(['', '', ' tail']) + '\n')
         elif k == 'mixed':
             lines.append(rng.choice(['<', 'é', '']) + '{{' + rng.choice(['one', 'ml', 'e', 'uni', 'mlu']) + '}}' + rng.choice(['>', 'ü', '€']) + '{{{ml}}}' + rng.choice(['!', 'ö']) + '\n')
         elif k == 'if':
